@@ -206,22 +206,34 @@ func c10Run(env *fw.Env, raw json.RawMessage) fw.Outcome {
 			if len(o.O.Findings) > 0 {
 				break
 			}
-			// entries written after reopening are durable again
-			h2, _ := readline.NewHistoryFromFile(cut)
-			if h2 == nil {
-				o.Viol("reopen-after-torn-append-failed", "nil source")
-				break
-			}
-			if _, err := h2.Write(c.Fresh); err != nil {
-				o.Inc("Write after reopen failed: " + err.Error())
-				continue
+			// entries written after reopening are durable again; the file is reopened through
+			// the constructor, or bound to a Shell with History.AddFromFile (every third point)
+			via := "NewHistoryFromFile"
+			if points%3 == 0 {
+				via = "Shell.History.AddFromFile"
+				os.Setenv("INPUTRC", "/dev/null")
+				sh := readline.NewShell()
+				sh.History.AddFromFile("verif file source", cut)
+				sh.Line().Set([]rune(c.Fresh)...)
+				sh.History.Write(false) // what accepting the line does
+				o.Add("appends_after_a_crash_through_a_shell_bound_source", 1)
+			} else {
+				h2, _ := readline.NewHistoryFromFile(cut)
+				if h2 == nil {
+					o.Viol("reopen-after-torn-append-failed", "nil source")
+					break
+				}
+				if _, err := h2.Write(c.Fresh); err != nil {
+					o.Inc("Write after reopen failed: " + err.Error())
+					continue
+				}
 			}
 			got2, err := c10Read(cut)
 			g2 := c10Norm(got2)
 			w1 := c10Norm(append(append([]string{}, prevWant...), c.Fresh))
 			w2 := c10Norm(append(append([]string{}, fullWant...), c.Fresh))
 			if err != nil || !(eqStrings(g2, w1) || (complete && eqStrings(g2, w2))) {
-				o.Viol("append-after-torn-tail-not-durable", fmt.Sprintf("file cut at byte %d of the last record [%d,%d), then %q appended through the API and the file reopened: expected %d entries ending with the fresh one, got %d (%s) err=%v", off, lo, hi, c.Fresh, len(w1), len(g2), qs(tail(g2, 3)), err))
+				o.Viol("append-after-torn-tail-not-durable", fmt.Sprintf("file cut at byte %d of the last record [%d,%d), then %q appended through "+via+" and the file reopened: expected %d entries ending with the fresh one, got %d (%s) err=%v", off, lo, hi, c.Fresh, len(w1), len(g2), qs(tail(g2, 3)), err))
 				break
 			}
 		}
